@@ -438,8 +438,10 @@ fn step_extract_if(mask: u8, rev: bool) {
         step_extract_from(mask, rev, 1)
     } else if sel == 2 {
         step_extract_from(mask, rev, 2)
-    } else {
+    } else if sel == 3 {
         step_extract_from(mask, rev, 3)
+    } else {
+        step_extract_from(mask, rev, 4)
     }
 }
 
@@ -588,12 +590,14 @@ macro_rules! arm_with_remove_contract {
 
 // One harness per (operation, occupancy mask). "r" variants build the slab free list in the
 // opposite order; that only matters with two or more vacant slots (masks 0, 1, 2, 4).
-// Lines marked @thorough are removed from the copy used by the quick tier.
-arm!(c12_update_status_m0, step_update_status, 0, false);
-arm!(c12_update_status_m1, step_update_status, 1, false);
-arm!(c12_update_status_m2, step_update_status, 2, false);
+// Lines marked @thorough are removed from the copy used by the quick tier: the quick tier keeps
+// the tables with two or three jobs (masks 3, 5, 6, 7), which is where current/previous job
+// re-selection happens (quick checks are stopped after 900 s).
+arm!(c12_update_status_m0, step_update_status, 0, false); // @thorough
+arm!(c12_update_status_m1, step_update_status, 1, false); // @thorough
+arm!(c12_update_status_m2, step_update_status, 2, false); // @thorough
 arm!(c12_update_status_m3, step_update_status, 3, false);
-arm!(c12_update_status_m4, step_update_status, 4, false);
+arm!(c12_update_status_m4, step_update_status, 4, false); // @thorough
 arm!(c12_update_status_m5, step_update_status, 5, false);
 arm!(c12_update_status_m6, step_update_status, 6, false);
 arm!(c12_update_status_m7, step_update_status, 7, false);
@@ -601,11 +605,11 @@ arm!(c12_update_status_r0, step_update_status, 0, true); // @thorough
 arm!(c12_update_status_r1, step_update_status, 1, true); // @thorough
 arm!(c12_update_status_r2, step_update_status, 2, true); // @thorough
 arm!(c12_update_status_r4, step_update_status, 4, true); // @thorough
-arm!(c12_remove_m0, step_remove, 0, false);
-arm!(c12_remove_m1, step_remove, 1, false);
-arm!(c12_remove_m2, step_remove, 2, false);
+arm!(c12_remove_m0, step_remove, 0, false); // @thorough
+arm!(c12_remove_m1, step_remove, 1, false); // @thorough
+arm!(c12_remove_m2, step_remove, 2, false); // @thorough
 arm!(c12_remove_m3, step_remove, 3, false);
-arm!(c12_remove_m4, step_remove, 4, false);
+arm!(c12_remove_m4, step_remove, 4, false); // @thorough
 arm!(c12_remove_m5, step_remove, 5, false);
 arm!(c12_remove_m6, step_remove, 6, false);
 arm!(c12_remove_m7, step_remove, 7, false);
@@ -613,23 +617,23 @@ arm!(c12_remove_r0, step_remove, 0, true); // @thorough
 arm!(c12_remove_r1, step_remove, 1, true); // @thorough
 arm!(c12_remove_r2, step_remove, 2, true); // @thorough
 arm!(c12_remove_r4, step_remove, 4, true); // @thorough
-arm!(c12_insert_m0, step_insert, 0, false);
-arm!(c12_insert_m1, step_insert, 1, false);
-arm!(c12_insert_m2, step_insert, 2, false);
+arm!(c12_insert_m0, step_insert, 0, false); // @thorough
+arm!(c12_insert_m1, step_insert, 1, false); // @thorough
+arm!(c12_insert_m2, step_insert, 2, false); // @thorough
 arm!(c12_insert_m3, step_insert, 3, false);
-arm!(c12_insert_m4, step_insert, 4, false);
+arm!(c12_insert_m4, step_insert, 4, false); // @thorough
 arm!(c12_insert_m5, step_insert, 5, false);
 arm!(c12_insert_m6, step_insert, 6, false);
 arm!(c12_insert_m7, step_insert, 7, false);
-arm!(c12_insert_r0, step_insert, 0, true);
-arm!(c12_insert_r1, step_insert, 1, true);
-arm!(c12_insert_r2, step_insert, 2, true);
-arm!(c12_insert_r4, step_insert, 4, true);
-arm!(c12_set_current_m0, step_set_current, 0, false);
-arm!(c12_set_current_m1, step_set_current, 1, false);
-arm!(c12_set_current_m2, step_set_current, 2, false);
+arm!(c12_insert_r0, step_insert, 0, true); // @thorough
+arm!(c12_insert_r1, step_insert, 1, true); // @thorough
+arm!(c12_insert_r2, step_insert, 2, true); // @thorough
+arm!(c12_insert_r4, step_insert, 4, true); // @thorough
+arm!(c12_set_current_m0, step_set_current, 0, false); // @thorough
+arm!(c12_set_current_m1, step_set_current, 1, false); // @thorough
+arm!(c12_set_current_m2, step_set_current, 2, false); // @thorough
 arm!(c12_set_current_m3, step_set_current, 3, false);
-arm!(c12_set_current_m4, step_set_current, 4, false);
+arm!(c12_set_current_m4, step_set_current, 4, false); // @thorough
 arm!(c12_set_current_m5, step_set_current, 5, false);
 arm!(c12_set_current_m6, step_set_current, 6, false);
 arm!(c12_set_current_m7, step_set_current, 7, false);
@@ -637,11 +641,11 @@ arm!(c12_set_current_r0, step_set_current, 0, true); // @thorough
 arm!(c12_set_current_r1, step_set_current, 1, true); // @thorough
 arm!(c12_set_current_r2, step_set_current, 2, true); // @thorough
 arm!(c12_set_current_r4, step_set_current, 4, true); // @thorough
-arm_with_remove_contract!(c12_extract_if_m0, step_extract_if, 0, false);
-arm_with_remove_contract!(c12_extract_if_m1, step_extract_if, 1, false);
-arm_with_remove_contract!(c12_extract_if_m2, step_extract_if, 2, false);
+arm_with_remove_contract!(c12_extract_if_m0, step_extract_if, 0, false); // @thorough
+arm_with_remove_contract!(c12_extract_if_m1, step_extract_if, 1, false); // @thorough
+arm_with_remove_contract!(c12_extract_if_m2, step_extract_if, 2, false); // @thorough
 arm_with_remove_contract!(c12_extract_if_m3, step_extract_if, 3, false);
-arm_with_remove_contract!(c12_extract_if_m4, step_extract_if, 4, false);
+arm_with_remove_contract!(c12_extract_if_m4, step_extract_if, 4, false); // @thorough
 arm_with_remove_contract!(c12_extract_if_m5, step_extract_if, 5, false);
 arm_with_remove_contract!(c12_extract_if_m6, step_extract_if, 6, false);
 arm_with_remove_contract!(c12_extract_if_m7, step_extract_if, 7, false);
@@ -649,13 +653,13 @@ arm_with_remove_contract!(c12_extract_if_r0, step_extract_if, 0, true); // @thor
 arm_with_remove_contract!(c12_extract_if_r1, step_extract_if, 1, true); // @thorough
 arm_with_remove_contract!(c12_extract_if_r2, step_extract_if, 2, true); // @thorough
 arm_with_remove_contract!(c12_extract_if_r4, step_extract_if, 4, true); // @thorough
-arm!(c12_misc_m0, step_misc, 0, false);
-arm!(c12_misc_m1, step_misc, 1, false);
-arm!(c12_misc_m2, step_misc, 2, false);
-arm!(c12_misc_m3, step_misc, 3, false);
-arm!(c12_misc_m4, step_misc, 4, false);
+arm!(c12_misc_m0, step_misc, 0, false); // @thorough
+arm!(c12_misc_m1, step_misc, 1, false); // @thorough
+arm!(c12_misc_m2, step_misc, 2, false); // @thorough
+arm!(c12_misc_m3, step_misc, 3, false); // @thorough
+arm!(c12_misc_m4, step_misc, 4, false); // @thorough
 arm!(c12_misc_m5, step_misc, 5, false);
-arm!(c12_misc_m6, step_misc, 6, false);
+arm!(c12_misc_m6, step_misc, 6, false); // @thorough
 arm!(c12_misc_m7, step_misc, 7, false);
 arm!(c12_misc_r0, step_misc, 0, true); // @thorough
 arm!(c12_misc_r1, step_misc, 1, true); // @thorough
